@@ -1097,6 +1097,12 @@ where
             _ => return Err(Error::InvalidFormatCode),
         };
 
+        // The count of a map includes both keys and values and is therefore even. An odd
+        // count cannot be a valid map and would underflow the entry counter below.
+        if count % 2 != 0 {
+            return Err(Error::InvalidLength);
+        }
+
         // // AMQP map count includes both key and value, should be halfed
         // let count = count / 2;
         visitor.visit_map(MapAccess::new(self, size, count))
@@ -1562,7 +1568,7 @@ impl<'de, R: Read<'de>> de::MapAccess<'de> for MapAccess<'_, R> {
     where
         V: de::DeserializeSeed<'de>,
     {
-        self.count -= 1;
+        self.count = self.count.checked_sub(1).ok_or(Error::InvalidLength)?;
         seed.deserialize(self.as_mut())
     }
 
@@ -1579,7 +1585,7 @@ impl<'de, R: Read<'de>> de::MapAccess<'de> for MapAccess<'_, R> {
             0 => Ok(None),
             _ => {
                 // AMQP map count includes both key and value
-                self.count -= 2;
+                self.count = self.count.checked_sub(2).ok_or(Error::InvalidLength)?;
                 let key = kseed.deserialize(self.as_mut())?;
                 let val = vseed.deserialize(self.as_mut())?;
                 Ok(Some((key, val)))
